@@ -1,3 +1,168 @@
 import Usual.Common
-/-! Model driver for C11 (stub: not built yet). -/
-def main : IO Unit := IO.println "stub"
+import Usual.C11.Utf8
+/-!
+Model driver for C11 (UTF-8 codec).  Same line protocol as `harness/C11/h.c`.
+
+Range-hash ops (one output line `<hash> <count>` each; the hash folds every result of the
+range in order, `count` = number of accepting / storing results):
+
+* `win v|g <avail> <lo> <hi>` — `validateSeq` / `getChar` on every `avail`-byte window with
+  big-endian index in `[lo, hi)` (`avail` = 1..4; exactly `avail` bytes exist before `end`)
+* `winq v|g <lo> <hi>`        — 4-byte windows `b0 b1 b2` × 8 boundary values of `b3`;
+  index = `(b0 b1 b2) * 8 + k`
+* `put <lo> <hi>`             — `charSize c` and `putChar room c` for `room` = 0..4, `c ∈ [lo, hi)`
+* `seq <lo> <hi>`             — `seqSize b` for `b ∈ [lo, hi)`
+
+Direct ops (used for replays, boundary cases and strings):
+`vseq <hex>`, `getc <hex>`, `putc <hexcode> <room>`, `seqsize <hexbyte>`, `charsize <hexcode>`,
+`vstr <hex>`.
+-/
+open Usual Usual.C11
+
+namespace Driver.C11
+
+@[inline] def mix (h v : UInt64) : UInt64 :=
+  let x := (h ^^^ v) * 0x9E3779B97F4A7C15
+  x ^^^ (x >>> 29)
+
+def hashInit : UInt64 := 0xcbf29ce484222325
+
+@[inline] def bv8 (x : UInt64) : B := x.toUInt8.toBitVec
+
+def b3set : Array B := #[0x00#8, 0x7F#8, 0x80#8, 0x8F#8, 0x90#8, 0xBF#8, 0xC0#8, 0xFF#8]
+
+/-- how the window bytes are cut out of the index: `b_k = byte (i >>> sh_k)` when `k < avail`,
+else 0; in quick mode `b3` comes from the boundary set -/
+structure Cut where
+  avail : Nat
+  quick : Bool
+  sh0 : UInt64
+  sh1 : UInt64
+  sh2 : UInt64
+  has1 : Bool
+  has2 : Bool
+  has3 : Bool
+
+def Cut.ofAvail (a : Nat) : Cut :=
+  { avail := a, quick := false, sh0 := (8 * (a - 1)).toUInt64, sh1 := (8 * (a - 2)).toUInt64,
+    sh2 := (8 * (a - 3)).toUInt64, has1 := a ≥ 2, has2 := a ≥ 3, has3 := a ≥ 4 }
+
+def Cut.q : Cut :=
+  { avail := 4, quick := true, sh0 := 19, sh1 := 11, sh2 := 3, has1 := true, has2 := true, has3 := true }
+
+@[inline] def Cut.b0 (c : Cut) (i : UInt64) : B := bv8 (i >>> c.sh0)
+@[inline] def Cut.b1 (c : Cut) (i : UInt64) : B := if c.has1 then bv8 (i >>> c.sh1) else 0#8
+@[inline] def Cut.b2 (c : Cut) (i : UInt64) : B := if c.has2 then bv8 (i >>> c.sh2) else 0#8
+@[inline] def Cut.b3 (c : Cut) (i : UInt64) : B :=
+  if c.quick then b3set[(i &&& 7).toNat]! else if c.has3 then bv8 i else 0#8
+
+partial def loopV (c : Cut) (i hi h n : UInt64) : UInt64 × UInt64 :=
+  if i >= hi then (h, n) else
+  let r := (validateSeqW (c.b0 i) (c.b1 i) (c.b2 i) (c.b3 i) c.avail).toNat.toUInt64
+  loopV c (i + 1) hi (mix h r) (if r != 0 then n + 1 else n)
+
+partial def loopG (c : Cut) (i hi h n : UInt64) : UInt64 × UInt64 :=
+  if i >= hi then (h, n) else
+  let r := getCharW (c.b0 i) (c.b1 i) (c.b2 i) (c.b3 i) c.avail
+  let v := r.1.toNat.toUInt64
+  loopG c (i + 1) hi (mix h (v ||| (r.2.toUInt64 <<< 32))) (if v < 0x80000000 then n + 1 else n)
+
+def loopWin (isV : Bool) (c : Cut) (lo hi : UInt64) : UInt64 × UInt64 :=
+  if isV then loopV c lo hi hashInit 0 else loopG c lo hi hashInit 0
+
+def packPut (r : Bool × Nat × List B) : UInt64 :=
+  let bs := r.2.2
+  let b (k : Nat) : UInt64 := (bs.getD k 0#8).toNat.toUInt64
+  (if r.1 then (1 : UInt64) else 0) ||| (r.2.1.toUInt64 <<< 8) ||| (b 0 <<< 16) ||| (b 1 <<< 24) |||
+    (b 2 <<< 32) ||| (b 3 <<< 40)
+
+partial def loopPut (c hi h n : UInt64) : UInt64 × UInt64 :=
+  if c >= hi then (h, n) else
+  let cv := BitVec.ofNat 32 c.toNat
+  let h := mix h (charSize cv).toNat.toUInt64
+  let rec rooms (room : Nat) (h n : UInt64) : UInt64 × UInt64 :=
+    if room > 4 then (h, n) else
+    let r := putChar room cv
+    rooms (room + 1) (mix h (packPut r)) (if r.1 && r.2.1 > 0 then n + 1 else n)
+  let (h, n) := rooms 0 h n
+  loopPut (c + 1) hi h n
+
+partial def loopSeq (b hi h n : UInt64) : UInt64 × UInt64 :=
+  if b >= hi then (h, n) else
+  let r := (seqSize (BitVec.ofNat 8 b.toNat)).toNat.toUInt64
+  loopSeq (b + 1) hi (mix h r) (if r != 0 then n + 1 else n)
+
+def hex64 (x : UInt64) : String :=
+  String.ofList ((List.range 16).map fun k => hexDigit ((x >>> (60 - 4 * k).toUInt64) &&& 0xF).toNat)
+
+def showHN (r : UInt64 × UInt64) : String := s!"{hex64 r.1} {r.2.toNat}"
+
+/-- parse a hexadecimal number (no prefix) -/
+def parseHexNat (s : String) : Option Nat :=
+  if s.isEmpty || s.length > 16 then none else
+  s.toList.foldl (fun acc ch => match acc, hexVal ch with
+    | some a, some d => some (a * 16 + d)
+    | _, _ => none) (some 0)
+
+def boolStr (b : Bool) : String := if b then "1" else "0"
+
+def step (line : String) : String :=
+  match words line with
+  | ["#case"] => "#case"
+  | ["win", f, a, lo, hi] =>
+    match a.toNat?, lo.toNat?, hi.toNat? with
+    | some a, some lo, some hi =>
+      if (f == "v" || f == "g") && 1 ≤ a && a ≤ 4 && lo ≤ hi && hi ≤ 256 ^ a then
+        showHN (loopWin (f == "v") (Cut.ofAvail a) lo.toUInt64 hi.toUInt64)
+      else "bad-op"
+    | _, _, _ => "bad-op"
+  | ["winq", f, lo, hi] =>
+    match lo.toNat?, hi.toNat? with
+    | some lo, some hi =>
+      if (f == "v" || f == "g") && lo ≤ hi && hi ≤ 256 ^ 3 * 8 then
+        showHN (loopWin (f == "v") Cut.q lo.toUInt64 hi.toUInt64)
+      else "bad-op"
+    | _, _ => "bad-op"
+  | ["put", lo, hi] =>
+    match lo.toNat?, hi.toNat? with
+    | some lo, some hi =>
+      if lo ≤ hi && hi ≤ 2 ^ 32 then showHN (loopPut lo.toUInt64 hi.toUInt64 hashInit 0) else "bad-op"
+    | _, _ => "bad-op"
+  | ["seq", lo, hi] =>
+    match lo.toNat?, hi.toNat? with
+    | some lo, some hi =>
+      if lo ≤ hi && hi ≤ 256 then showHN (loopSeq lo.toUInt64 hi.toUInt64 hashInit 0) else "bad-op"
+    | _, _ => "bad-op"
+  | ["vseq", h] =>
+    match parseHex h with
+    | some (b :: bs) => toString (validateSeqU (b :: bs))
+    | _ => "bad-op"
+  | ["getc", h] =>
+    match parseHex h with
+    | some (b :: bs) => let r := getCharU (b :: bs); s!"{r.1} {r.2}"
+    | _ => "bad-op"
+  | ["putc", c, room] =>
+    match parseHexNat c, room.toNat? with
+    | some c, some room =>
+      if c < 2 ^ 32 && room ≤ 16 then
+        let r := putCharU room c
+        s!"{boolStr r.1} {r.2.1} {toHex r.2.2}"
+      else "bad-op"
+    | _, _ => "bad-op"
+  | ["seqsize", b] =>
+    match parseHexNat b with
+    | some b => if b < 256 then toString (seqSize (BitVec.ofNat 8 b)).toNat else "bad-op"
+    | none => "bad-op"
+  | ["charsize", c] =>
+    match parseHexNat c with
+    | some c => if c < 2 ^ 32 then toString (charSize (BitVec.ofNat 32 c)).toNat else "bad-op"
+    | none => "bad-op"
+  | ["vstr", h] =>
+    match parseHex h with
+    | some bs => boolStr (validateStringU bs)
+    | none => "bad-op"
+  | _ => "bad-op"
+
+end Driver.C11
+
+def main : IO Unit := Usual.runDriver () (fun _ line => ((), Driver.C11.step line))
